@@ -289,7 +289,7 @@ func (cc *caseCtx) await(desc string, done func() bool) bool {
 		}
 		runtime.Gosched()
 	}
-	w := &common.Watch{Progress: &cc.progress, Pending: func() int { return 1 }, Interval: 60 * time.Millisecond, K: 2}
+	w := &common.Watch{Progress: &cc.progress, Pending: func() int { return 1 }, Interval: 12 * time.Millisecond, K: 2}
 	rep, inc := w.WaitDone(done, 90*time.Second)
 	if rep == nil && !inc {
 		return true
